@@ -155,6 +155,30 @@ def leaf_spec(name):
 def domain(var):
     return ["<", "=", ">"] if var[0] == "cmp" else [False, True]
 
+def _closure_test_atom(run, r, raw, az):
+    """`opt.is_some_and(|x| test(x))` / `opt.is_none_or(|x| test(x))` on a claim: the claim's presence combined with the
+    closure's own test, evaluated on the claim's Some payload."""
+    if not (isinstance(raw, tuple) and raw and raw[0] == "call" and len(raw[2]) == 2):
+        return None
+    m = re.search(r"Option::<.*>::(is_some_and|is_none_or)(::<.*>)?$", raw[1])
+    if not m:
+        return None
+    opt, clo = raw[2]
+    x = az.operand(run.norm.n(run.interp.argval(r.path, opt)))
+    if not (x and x.startswith("claims.")):
+        return None
+    inner_raw = run.interp.apply_fn(r.path, clo, ("okv", run.interp.argval(r.path, opt)))
+    if isinstance(inner_raw, tuple) and inner_raw and inner_raw[0] == "call":
+        # comparisons of references compare the referents
+        inner_raw = ("call", inner_raw[1], tuple(run.interp.argval(r.path, a_) for a_ in inner_raw[2]))
+    ia = az.atom(run.norm.n(inner_raw))
+    if ia is None:
+        return None
+    kp = ("present", x)
+    if m.group(1) == "is_some_and":
+        return ((kp,) + tuple(ia[0]), lambda env, kp=kp, f=ia[1]: 1 if (env[kp] and f(env) == 1) else 0)
+    return ((kp,) + tuple(ia[0]), lambda env, kp=kp, f=ia[1]: 1 if ((not env[kp]) or f(env) == 1) else 0)
+
 def check_leaf(ctx, name, fnkey):
     cr = ctx.crates["paseto_json"]
     f = cr.fns.get(fnkey)
@@ -179,7 +203,7 @@ def check_leaf(ctx, name, fnkey):
         gs = []
         for g in r.path.guards:
             c = run.norm.n(g["cond"])
-            a = az.atom(c)
+            a = az.atom(c) or _closure_test_atom(run, r, g["cond"], az)
             if a is None:
                 probs.append("branch on a condition that is not a recognised claim test: " + fmt_n(c)[:200])
                 continue
@@ -439,27 +463,35 @@ LEAVES = {"Time": "<claims_impls::Time as paseto_core::validation::Validate>::va
 VALIDATOR_TYPES = ("Time", "TimeWithLeeway", "HasExpiry", "ForSubject", "FromIssuer", "ForAudience")
 
 def check_constructors(ctx):
-    """R11.4: wherever the library itself builds a time validator, every field is an argument (or a field of `self`) passed through
-    unmodified, or the current time: the leeway applied is exactly the leeway the caller gave, `valid_at(t)` checks against t."""
-    from origins import Origins
+    """R11.4: every library function that RETURNS a time/claim validator (directly or by delegating to another constructor)
+    returns an aggregate whose fields are the caller's arguments (or fields of `self`) passed through unmodified, or the current
+    time: the leeway applied is exactly the leeway the caller gave, `valid_at(t)` checks against t."""
     cr = ctx.crates["paseto_json"]
     n = 0
-    for k, f in cr.fns.items():
-        if not f.get("body"):
+    for k, f in sorted(cr.fns.items()):
+        if not f.get("body") or f.get("kind") == "Closure" or "{closure" in k:
             continue
-        for b in f["body"]["blocks"]:
-            for st in b["stmts"]:
-                if st["k"] == "assign" and st["rv"]["k"] == "agg" and st["rv"]["ak"].get("a") == "adt" and st["rv"]["ak"]["path"].split("::")[-1] in VALIDATOR_TYPES:
-                    og = Origins(f)
-                    probs = []
-                    for i, o in enumerate(st["rv"]["ops"]):
-                        t = og.operand(o, 0)
-                        ok = (isinstance(t, tuple) and t and (t[0] == "arg" or (t[0] == "field" and isinstance(t[1], tuple) and t[1][0] == "arg")
-                                                              or (t[0] == "call" and t[1] == "jiff::timestamp::Timestamp::now")))
-                        if not ok:
-                            probs.append(f"field {i} of {st['rv']['ak']['path'].split('::')[-1]} is computed ({str(t)[:160]}) instead of being the caller's value passed through")
-                    n += 1
-                    ctx.add("R11.4", f"C11/constructor/{k}", not probs, "; ".join(probs), site_of(f))
+        rt = cr.ty(f["body"]["locals"][0]["ty"])
+        if rt.get("k") != "adt" or rt["path"].split("::")[-1] not in VALIDATOR_TYPES:
+            continue
+        run = Run(ctx.world, f)
+        probs = []
+        if not run.results or any(r.kind != "return" for r in run.results):
+            probs.append("constructor has non-returning paths")
+        for r in run.results:
+            if r.kind != "return":
+                continue
+            v = run.norm.n(run.interp.argval(r.path, r.ret))
+            if not (isinstance(v, tuple) and v[0] == "agg" and v[1].startswith("adt:")):
+                probs.append("does not return a validator aggregate: " + fmt_n(v)[:120])
+                continue
+            for i, t in enumerate(v[2]):
+                ok = (isinstance(t, tuple) and t and (t[0] == "in" or (t[0] == "fld" and isinstance(t[1], tuple) and t[1][0] == "in")
+                                                      or (t[0] == "call" and t[1] in ("jiff::timestamp::Timestamp::now", "Timestamp::now") and not t[2])))
+                if not ok:
+                    probs.append(f"field {i} of {v[1][4:].split('::')[-1]} is computed ({fmt_n(t)[:160]}) instead of being the caller's value passed through")
+        n += 1
+        ctx.add("R11.4", f"C11/constructor/{k}", not probs, "; ".join(sorted(set(probs))), site_of(f))
     return n
 
 def run(ctx):
